@@ -8,7 +8,7 @@ import time
 
 from pyvc import verify
 from bounded import gen
-from .common import ctx, std, json_args_obligation
+from .common import ctx, std, contract_samples, json_args_obligation
 
 KINDS = ["composeinfo", "images", "rpms", "modules", "extra_files", "treeinfo"]
 
@@ -140,6 +140,7 @@ def check(run):
                                                                "arch_platforms_mirror_tree", "variant_is_requested_or_first", "keeps_no_state_between_calls"), crosscheck=False)
     verify.verify(run, c.E, c.contracts["gen:paths-pkg:2:0"], only=("variant_is_requested_or_first", "packagedir_repository_of_main_variant", "keeps_no_state_between_calls"),
                   crosscheck=False)
+    contract_samples(run, c, ["canon:images.Images"])
     # canon.repeat: writers leave the object's content unchanged (so the n-th dump equals the first)
     for k in ("ser:composeinfo.Compose", "ser:composeinfo.Release", "ser:images.Image", "ser:treeinfo.Release", "ser:treeinfo.Media"):
         verify.verify(run, c.E, c.contracts[k], only=("object_unchanged", "keeps_no_state_between_calls"), crosscheck=False)
